@@ -179,6 +179,11 @@ func (w *LiveWorld) EntLine(e *LEnt, v int) string {
 		}
 		return fmt.Sprintf("func (t *T%d) %s() int { %s }%s", e.Recv, e.name(), body, trailer)
 	}
+	if e.Pkg == 0 && v != 9 {
+		// functions of package main fail at run time while the host has set GF (a "failcall" step):
+		// a call that ended in an error must not change how later reloads treat the function
+		body = "if GF > 0 { GF = GF / (GF - GF) }; " + body
+	}
 	if e.Variadic {
 		return fmt.Sprintf("func %s(xs ...int) int { %s }%s", e.name(), body, trailer)
 	}
@@ -278,6 +283,8 @@ func (w *LiveWorld) Infra(pkg int) string {
 	ln("func nz(x any) int { if x == nil { return 0 }; return 1 }")
 	ln("type Holder struct { F func() int }")
 	ln("type HolderV struct { F func(...int) int }")
+	ln("var GF int")
+	ln("func setGF(v int) { GF = v }")
 	ln("var S int")
 	ln("var SA any")
 	ln("var SM map[string]int") // allocated by captureInst and left empty: an empty map is not a nil map
